@@ -120,6 +120,8 @@ def generate(repo_src_dir, template_paths):
                     t = tlines[i].strip()
                     if t == '//@@ head':
                         cur = sections['head']
+                    elif t.startswith('//@@ attr '):
+                        sections.setdefault('attrs', []).append(t[len('//@@ attr '):])
                     elif t.startswith('//@@ loop '):
                         k = int(t.split()[2])
                         cur = sections['loops'].setdefault(k, [])
@@ -171,6 +173,8 @@ def generate(repo_src_dir, template_paths):
                 info = dict(fn=key, verus_name=vname)
                 if trusted:
                     emit('#[verifier::external_body]', section='sig', **info)
+                for at in sections.get('attrs', []):
+                    emit(at, section='sig', **info)
                 emit(sig, section='sig', **info)
                 curtags, curname = None, None
                 for sl in sections['spec']:
@@ -200,6 +204,7 @@ def generate(repo_src_dir, template_paths):
                     body, removed_fns, removed = rsx.hoist_nested_items(body, log)
                     body = rsx.rewrite_ptr_copy(body, log)
                     body = rsx.rewrite_swap(body, log)
+                    body = rsx.rewrite_split_at_mut(body, log)
                     body = rsx.rewrite_assert_eq(body, log)
                     body = rsx.rewrite_min(body, log)
                     loops = {k: '\n'.join(v) for k, v in sections['loops'].items()}
